@@ -30,7 +30,7 @@ type c08Row struct {
 	Refusal int    `json:"refusal"` // 0 404, 1 redirect, 2 401
 	Mounted bool   `json:"mounted"`
 	Mount   string `json:"mount"`
-	Storage int    `json:"storage"` // 0 ok, 1 not-found, 2 error, 3 error on the request's first load only (a blip)
+	Storage int    `json:"storage"` // 0 ok, 1 not-found, 2 error, 3 error on the request's first load only (a blip), 4 / 5 the storer's own query deadline / cancellation (wrapped context errors)
 	API     bool   `json:"api"`
 	Legacy  bool   `json:"legacy"` // use the deprecated boolean constructors where they can express the row
 }
@@ -49,6 +49,11 @@ func (s c08Store) Load(ctx context.Context, key string) (authboss.User, error) {
 		return nil, authboss.ErrUserNotFound
 	case 2:
 		return nil, errors.New("database unavailable")
+	case 4:
+		// the storer bounds its own query: a timeout of the database, not of the request (whose context is alive)
+		return nil, fmt.Errorf("select user: %w", context.DeadlineExceeded)
+	case 5:
+		return nil, fmt.Errorf("select user: %w", context.Canceled)
 	case 3:
 		if pr, ok := ctx.Value(c08ProbeKey{}).(*c08Probe); ok {
 			if pr.loads++; pr.loads == 1 {
@@ -362,7 +367,7 @@ func c08Rows() []c08Row {
 					for ref := 0; ref < 3; ref++ {
 						for _, mounted := range []bool{false, true} {
 							for _, mount := range c08Mounts {
-								for sto := 0; sto < 4; sto++ {
+								for sto := 0; sto < 6; sto++ {
 									for _, api := range []bool{false, true} {
 										rows = append(rows, c08Row{User: user, Half: half, TwoFA: two, Reqs: reqs, Refusal: ref,
 											Mounted: mounted, Mount: mount, Storage: sto, API: api})
